@@ -408,7 +408,14 @@ func NewFork(nodable Nodable, index int, id ForkId) *Fork {
 // a bit more than those on the fork ID - they can't use a slash to
 // separate nested fork components, and they can't contain a '.' character
 // as that would break the journal filename parsing scheme.
-var encodeJournalName = strings.NewReplacer(".", "%2E", "/", "%2F")
+//
+// The '%' character must be encoded as well: map keys are already
+// percent-encoded in the fork ID, so a '/' inside a key is "%2F" there.
+// If '%' were passed through, the separator between nested fork components
+// would be indistinguishable from a '/' which was part of a key, and e.g.
+// the nested keys ("a", "b/fork_c") and ("a/fork_b", "c") would share one
+// journal name.
+var encodeJournalName = strings.NewReplacer("%", "%25", ".", "%2E", "/", "%2F")
 
 func (self *Fork) updateId(id ForkId) {
 	self.forkId = id
